@@ -262,7 +262,7 @@ def replay(name, mod, slot, logdir, cap=1800, want=None, panics_ok=False):
     build_failed = False
     outs = {}
     for prof in ("dev", "release"):
-        cmd = ["cargo", "kani", "playback", "-Z", "concrete-playback", "--", "kani_concrete_playback"]
+        cmd = ["cargo", "kani", "playback", "-Z", "concrete-playback", "--", "kani_concrete_playback", "--test-threads=1"]
         # `cargo kani playback` has no --release: the release profile users run is approximated by
         # overriding the test profile (opt-level 3, no debug assertions, no overflow checks)
         xe = None
